@@ -403,7 +403,7 @@ def c08_routes(tier, seed):
 C16_PROGRAMS = ["x = 1", "def f(a, *b, c=1):\\n    return a", "import os\\nprint(os.sep)", "class A:\\n    '''doc'''\\n    def m(self): return 1",
                 "y = [i for i in range(3)]", "async def f():\\n    yield 1", "lambda: (1, 2.0, 'a', b'b', None, ...)", "x = 1e999 - 1e999",
                 "while a:\\n    a -= 1", "try:\\n    pass\\nfinally:\\n    z = 2", "", "pass",
-"greeting = 'h\u00e9llo w\u00f6rld \u4e16\u754c'", "p = 'C:\\\\temp\\\\x' + '\\'' + \"\\t\""]
+"greeting = 'h\u00e9llo w\u00f6rld \u4e16\u754c'", "p = 'C:\\\\temp\\\\x' + '\\'' + \"\\t\"", "@staticmethod\\ndef deco(): pass"]
 
 
 def _cli(args, cwd=None):
